@@ -16,6 +16,8 @@ CONSTANTS
   BadKind = ""
   Budgets = {99, 1}
   HalfClosed = TRUE
+  UpgAt = 0
+  DEV_UpgradeDropsWbuf = FALSE
   KaOn = TRUE
   DEV_CtxShared = FALSE
   DEV_PopIgnoresClose = TRUE
